@@ -46,6 +46,11 @@ type Config struct {
 	// PrevF and ran one Compute over PrevN canned values before the exported fields were
 	// assigned to P / F - an instance that is reconfigured between two computations, which the
 	// exported fields invite. Anything Compute caches on the receiver shows here.
+	// S: smoothing constants assigned to the nested EMA instances of a composite indicator through
+	// their exported fields, in order of appearance (empty: the constructors' 2).
+	S []float64 `json:"s,omitempty"`
+	// Plain: built with the argument-less constructor (P and F are the documented defaults).
+	Plain bool      `json:"plain,omitempty"`
 	PrevP []int     `json:"prev_p,omitempty"`
 	PrevF []float64 `json:"prev_f,omitempty"`
 	PrevN int       `json:"prev_n,omitempty"`
@@ -55,7 +60,18 @@ func (c Config) String() string {
 	if c.PrevP != nil {
 		return fmt.Sprintf("p=%v f=%v (reconfigured from p=%v f=%v after %d values)", c.P, c.F, c.PrevP, c.PrevF, c.PrevN)
 	}
+	if len(c.S) > 0 {
+		return fmt.Sprintf("p=%v f=%v nested smoothing=%v", c.P, c.F, c.S)
+	}
 	return fmt.Sprintf("p=%v f=%v", c.P, c.F)
+}
+
+// Sm is the smoothing constant of the i-th nested EMA.
+func (c Config) Sm(i int) float64 {
+	if i < len(c.S) {
+		return c.S[i]
+	}
+	return 2
 }
 
 // In maps an input field name to its reference series.
@@ -98,6 +114,8 @@ type Ind struct {
 	Window bool
 	// Recursive says that an ill-conditioned position contaminates all later ones.
 	Recursive bool
+	// NS is the number of nested EMA instances whose Smoothing field is exported (Config.S).
+	NS int
 }
 
 func ints(n, v int) []int {
@@ -132,7 +150,18 @@ func GenPeriod(t *rapid.T, p Param) int {
 
 // GenConfig draws an admissible configuration; small restricts periods to 1..maxSmall.
 func (ind Ind) GenConfig(t *rapid.T, maxSmall int) Config {
+	if _, ok := plain[ind.Name]; ok && rapid.IntRange(0, 24).Draw(t, "plain_ctor") == 0 {
+		// the plain constructor: every parameter at its documented default
+		c := ind.DefaultConfig()
+		c.Plain = true
+		return c
+	}
 	c := ind.genPF(t, maxSmall)
+	if ind.NS > 0 && rapid.IntRange(0, 3).Draw(t, "nested_smoothing") == 0 {
+		for i := 0; i < ind.NS; i++ {
+			c.S = append(c.S, float64(rapid.IntRange(1, 12).Draw(t, fmt.Sprintf("s%d", i)))/4)
+		}
+	}
 	if _, ok := alt[ind.Name]; ok && rapid.IntRange(0, 2).Draw(t, "field_route") == 0 {
 		c.Alt = true
 		if rapid.Bool().Draw(t, "reconfigured") {
@@ -264,21 +293,28 @@ func All() []Ind {
 	out = append(out, volatilityInds()...)
 	out = append(out, volumeInds()...)
 	for i := range out {
-		if a, ok := alt[out[i].Name]; ok {
-			plain := out[i].Build
-			nin := len(out[i].Inputs)
-			out[i].Build = func(c Config) (func([]C) []C, int) {
-				if c.Alt {
-					inst := a()
-					if c.PrevP != nil && !raceDetector {
-						inst.set(Config{P: c.PrevP, F: c.PrevF})
-						warm(inst.compute, nin, c.PrevN)
-					}
-					inst.set(c)
-					return inst.compute, inst.idle()
-				}
-				return plain(c)
+		name := out[i].Name
+		a, hasAlt := alt[name]
+		pl, hasPlain := plain[name]
+		if !hasAlt && !hasPlain {
+			continue
+		}
+		ctor := out[i].Build
+		nin := len(out[i].Inputs)
+		out[i].Build = func(c Config) (func([]C) []C, int) {
+			if c.Plain && hasPlain {
+				return pl(c)
 			}
+			if c.Alt && hasAlt {
+				inst := a()
+				if c.PrevP != nil && !raceDetector {
+					inst.set(Config{P: c.PrevP, F: c.PrevF})
+					warm(inst.compute, nin, c.PrevN)
+				}
+				inst.set(c)
+				return inst.compute, inst.idle()
+			}
+			return ctor(c)
 		}
 	}
 	return out
